@@ -127,7 +127,7 @@ BOUNDARY_DATA = [b"", b"\x80", b"\x00", b"\x01", b"\x02", b"\x10", b"\x11", b"\x
                  b"\x00\x00\x00\x00\x80", b"\x00\x00\x00\x00\x00", b"\x01\x00\x00\x00\x00", b"\x00\x00\x40\x00", b"\x00\x00\x00\x80\x80"]
 BOUNDARY_INTS = [0, 1, -1, 2, 3, 16, 17, 20, 21, 127, 128, 255, 256, 32767, 32768, 65535, 0x400000, 500000000 - 1, 500000000, 0x7fffffff, 0x80000000, -0x7fffffff,
                  -0x80000000, 0xffffffff, 0x7fffffffff, 0x8000000000, -127, -128, -255]
-SIZES = [75, 76, 77, 255, 256, 519, 520, 521]
+SIZES = [75, 76, 77, 255, 256, 519, 520, 521, 520, 521]
 ENCS = ["min", "min", "min", "direct", "pd1", "pd2", "pd4"]
 
 
